@@ -144,7 +144,8 @@ public:
         for (std::size_t i = 0; i != size; ++i)
         {
             RandomNumberEngine rne;
-            in >> rne;
+            // some engines' extraction operators do not skip the preceding newline themselves
+            in >> std::ws >> rne;
             generators_.push_back(rne);
         }
     }
